@@ -231,3 +231,61 @@ Definition run_case (c : case) : list (list Z) := run_case_with false c.
 
 (* same, pre-repair behaviour (documentation / refutation only) *)
 Definition run_case_legacy (c : case) : list (list Z) := run_case_with true c.
+
+(* ---------------------------------------------------------------------- *)
+(* stage NAMES.  A stage's name is chosen by the caller and is neither unique nor non-empty; it plays no part
+   in [run] / [run_par].  What a caller can tell apart in a result is the name, so the observation identifies a
+   stage by the FIRST position that carries its name ([cls], one entry per stage; the identity when the names
+   are distinct).  Sequential results arrive in stage order and are matched by position; only [blocked_at] is
+   a name.  run_parallel delivers its results in completion order: they are compared as a sorted list of rows. *)
+
+Definition cls_of (cls : list Z) (i : Z) : Z := nth (Z.to_nat i) cls i.
+
+Fixpoint lex_leb (a b : list Z) : bool :=
+  match a, b with
+  | [], _ => true
+  | _ :: _, [] => false
+  | x :: a', y :: b' => if x <? y then true else if y <? x then false else lex_leb a' b'
+  end.
+
+Fixpoint insert_row (r : list Z) (l : list (list Z)) : list (list Z) :=
+  match l with
+  | [] => [r]
+  | h :: t => if lex_leb r h then r :: l else h :: insert_row r t
+  end.
+
+Definition sort_rows (l : list (list Z)) : list (list Z) := fold_right insert_row [] l.
+
+Definition relabel_row (cls : list Z) (row : list Z) : list Z :=
+  match row with i :: rest => cls_of cls i :: rest | [] => [] end.
+
+Definition obs_named (cls : list Z) (r : result) : list (list Z) :=
+  [ [ (if r_success r then 1 else 0);
+      match r_output r with Some _ => 1 | None => 0 end;
+      match r_output r with Some v => v | None => 0 end;
+      match r_blocked r with Some i => cls_of cls (Z.of_nat i) | None => -1 end;
+      Z.of_nat (r_completed r) ];
+    q_obs (r_amp r);
+    [ Z.of_nat (length (r_results r)) ] ]
+  ++ map sres_obs (r_results r)
+  ++ map (fun e : event => let '(i, c, x) := e in [Z.of_nat i; cb_code c; x]) (r_log r).
+
+Definition pobs_named (cls : list Z) (r : presult) : list (list Z) :=
+  [ [ (if p_success r then 1 else 0);
+      match p_outputs r with Some _ => 1 | None => 0 end;
+      0; -1; Z.of_nat (p_completed r) ];
+    [1; 1];
+    [ Z.of_nat (length (p_results r)) ] ]
+  ++ sort_rows (map (fun s => relabel_row cls (sres_obs s)) (p_results r))
+  ++ map (fun e : event => let '(i, c, x) := e in [Z.of_nat i; cb_code c; x]) (p_log r)
+  ++ [ -5 :: match p_outputs r with Some l => l | None => [] end ].
+
+Definition named_case := (case * list Z)%type.
+
+Definition run_case_named (nc : named_case) : list (list Z) :=
+  let '((par, halt, maxamp, stages, x), cls) := nc in
+  if par then pobs_named cls (run_par false (map interp_stage stages) x)
+  else obs_named cls (run false halt maxamp (map interp_stage stages) x).
+
+(* the classes of distinct names *)
+Definition ident_cls (n : nat) : list Z := map Z.of_nat (seq 0 n).
